@@ -171,6 +171,19 @@ static void CloseTarget(void) {
     }
 }
 
+/* number of byte addresses below ByteAddr that pass the -m byte lane selection */
+
+static LargeWord LaneBytesBelow(LargeWord ByteAddr) {
+    LargeWord Result = (ByteAddr >> 2) * (4 / SizeDiv), Addr;
+
+    for (Addr = ByteAddr & ~(LargeWord)3; Addr < ByteAddr; Addr++) {
+        if ((Addr & ANDMask) == ANDEq) {
+            Result++;
+        }
+    }
+    return Result;
+}
+
 static void ProcessFile(char const* FileName, LongWord Offset) {
     FILE*    SrcFile;
     Word     TestID;
@@ -256,7 +269,9 @@ static void ProcessFile(char const* FileName, LongWord Offset) {
                 /* in Zieldatei an passende Stelle */
 
                 if (fseek(TargFile,
-                          (((ErgStart - StartAdr) * Gran) / SizeDiv) + abs(StartHeader),
+                          LaneBytesBelow((LargeWord)ErgStart * Gran)
+                                  - LaneBytesBelow((LargeWord)StartAdr * Gran)
+                                  + abs(StartHeader),
                           SEEK_SET)
                     == -1) {
                     ChkIO(TargName);
